@@ -58,12 +58,11 @@ class Shuffle(pipes.Shuffle, EnvironmentFilter):
 
                 # np.corrcoef(R1,R2)
 
-            old_seed = self._seed
+            #the seed is changed for this read only. It must never be written back to
+            #self: a read that is abandoned part-way would leave the filter re-seeded.
             new_seed = self._seed * 3.21 if self._seed is not None else self._seed
 
-            self._seed = new_seed
-            yield from super().filter(interactions)
-            self._seed = old_seed
+            yield from CobaRandom(new_seed).shuffle(list(interactions),inplace=True)
 
         else:
             yield from super().filter(interactions)
